@@ -43,6 +43,10 @@ type stats struct {
 	afterClose int    // messages delivered after Close returned
 	labels     map[string]bool
 	nontriv    bool
+	// where the stop action landed, deaf-transport view
+	noImplYet   bool // the underlying client has never held an Impl
+	deafConnect bool // inside the constructor of a deaf transport
+	deafNext    bool // in a backoff whose retry uses a deaf transport
 }
 
 func (s *stats) label(l string) {
@@ -226,6 +230,14 @@ func run(sc *Scenario, st *stats) *verr {
 			as = w.attempts[nBegin-1]
 		}
 		st.atStop, st.ended = nBegin, nEnd
+		st.noImplYet = true
+		for _, a := range w.attempts {
+			if a.subscribed {
+				st.noImplYet = false // the underlying client has held an Impl
+			}
+		}
+		st.deafConnect = as != nil && !as.connected && as.script.Conn == "deaf"
+		st.deafNext = nBegin == nEnd && !stopFirst && sc.attempt(nBegin).Conn == "deaf"
 		if nBegin > 0 {
 			st.reconnects = nBegin - 1
 		}
@@ -291,15 +303,29 @@ func run(sc *Scenario, st *stats) *verr {
 	if subAt > from {
 		from = subAt
 	}
+	// A deaf transport (one that does not watch its context) cannot be
+	// interrupted before it has an Impl to close, so no client can return
+	// while one is at work: the bound then counts from the instant the last
+	// deaf attempt let go (the return of that underlying Subscribe), which is
+	// read off the history. At most one attempt runs after the stop action.
+	var slack time.Duration
+	for _, a := range sc.Attempts {
+		slack += a.deafLife()
+	}
+	sleepUntil(from + bound + slack)
+	deafUntil := w.deafUntil()
+	if deafUntil > from {
+		from = deafUntil
+		st.label("bound-counted-from-deaf-transport-release")
+	}
 	deadline := from + bound
-	sleepUntil(deadline)
 
 	// Termination: both calls have returned, no later than the deadline.
 	ret, okRet := find("ret")
 	cret, okClose := find("close-ret")
 	if !okRet || (sc.Stop == "close" && !okClose) {
 		// Late: keep watching (virtual time is free) to say how late.
-		horizon := deadline + 4*time.Duration(sc.MaxDelay)*Unit + 2*libraryDefault
+		horizon := w.now() + 4*time.Duration(sc.MaxDelay)*Unit + 2*libraryDefault
 		sleepUntil(horizon)
 		ret, okRet = find("ret")
 		cret, okClose = find("close-ret")
@@ -310,8 +336,8 @@ func run(sc *Scenario, st *stats) *verr {
 			return fmt.Sprintf("had not returned at %v either", horizon)
 		}
 		if v == nil {
-			v = newVerr("return-late", "stop action (%s, landed %s) at %v, Subscribe called at %v, current backoff interval %v (RetryBaseDelay %v, RetryMaxDelay %v, %d earlier backoffs), so both calls are due by %v: Subscribe %s",
-				sc.Stop, st.phase, stopAt, subAt, bound, time.Duration(sc.BaseDelay)*Unit, time.Duration(sc.MaxDelay)*Unit, earlier, deadline, when(ret, okRet))
+			v = newVerr("return-late", "stop action (%s, landed %s) at %v, Subscribe called at %v, last deaf transport released at %v, current backoff interval %v (RetryBaseDelay %v, RetryMaxDelay %v, %d earlier backoffs), so both calls are due by %v: Subscribe %s",
+				sc.Stop, st.phase, stopAt, subAt, deafUntil, bound, time.Duration(sc.BaseDelay)*Unit, time.Duration(sc.MaxDelay)*Unit, earlier, deadline, when(ret, okRet))
 			if sc.Stop == "close" {
 				v.msg += ", Close " + when(cret, okClose)
 			}
@@ -320,9 +346,9 @@ func run(sc *Scenario, st *stats) *verr {
 	if v == nil {
 		switch {
 		case ret.At > deadline:
-			v = newVerr("return-late", "Subscribe returned at %v, later than %v = later of stop action (%s, landed %s, at %v) and Subscribe call (%v) + current backoff interval %v", ret.At, deadline, sc.Stop, st.phase, stopAt, subAt, bound)
+			v = newVerr("return-late", "Subscribe returned at %v, later than %v = latest of stop action (%s, landed %s, at %v), Subscribe call (%v) and release of the last deaf transport (%v) + current backoff interval %v", ret.At, deadline, sc.Stop, st.phase, stopAt, subAt, deafUntil, bound)
 		case sc.Stop == "close" && cret.At > deadline:
-			v = newVerr("return-late", "Close returned at %v, later than %v = its call (landed %s) at %v + current backoff interval %v", cret.At, deadline, st.phase, stopAt, bound)
+			v = newVerr("return-late", "Close returned at %v, later than %v = later of its call (landed %s, at %v) and release of the last deaf transport (%v) + current backoff interval %v", cret.At, deadline, st.phase, stopAt, deafUntil, bound)
 		}
 	}
 	if sc.Stop == "cancel" {
@@ -459,7 +485,14 @@ func (w *world) judge(st *stats, stopAt time.Duration) *verr {
 		}
 		st.afterClose = len(after)
 		if len(after) > 1 {
-			return newVerr("delivery-after-close", "the handler received the notifications of %d messages after Close had returned (at most one allowed)", len(after))
+			var at time.Duration
+			for _, e := range w.events {
+				if e.Kind == "close-ret" {
+					at = e.At
+					break
+				}
+			}
+			return newVerr("delivery-after-close", "the handler received the notifications of %d messages after Close had returned at %v (at most one allowed)", len(after), at)
 		}
 	}
 	// (4) the handler saw the notifications in the order the Impl handed them over.
@@ -474,6 +507,20 @@ func (w *world) judge(st *stats, stopAt time.Duration) *verr {
 		last = s.id
 	}
 	return nil
+}
+
+// deafUntil is the latest instant at which the underlying Subscribe of an
+// attempt over a deaf transport returned (0 if there was none).
+func (w *world) deafUntil() time.Duration {
+	w.mu.Lock()
+	defer w.mu.Unlock()
+	var at time.Duration
+	for _, e := range w.events {
+		if e.Kind == "sub-end" && e.Attempt >= 0 && e.Attempt < len(w.attempts) && w.attempts[e.Attempt].script.Conn == "deaf" && e.At > at {
+			at = e.At
+		}
+	}
+	return at
 }
 
 // labels derives the label set and the non-trivial rule. Called with w.mu held.
@@ -503,6 +550,25 @@ func (w *world) labels(st *stats) {
 	default:
 		st.label(kind + "-" + st.phase)
 	}
+	if st.deafConnect {
+		st.label(kind + "-during-deaf-connect")
+	}
+	if st.phase == "backoff" && st.noImplYet {
+		st.label(kind + "-during-backoff-after-failed-first-connect")
+	}
+	if st.phase == "backoff" && st.deafNext {
+		st.label(kind + "-during-backoff-before-deaf-retry")
+		if st.noImplYet {
+			st.label(kind + "-during-backoff-after-failed-first-connect-before-deaf-retry")
+		}
+	}
+	stopAt := sc.stopInstant()
+	for _, e := range w.events {
+		if e.Kind == "msg" && e.At > stopAt && e.Attempt < len(w.attempts) && w.attempts[e.Attempt].deaf {
+			st.label("deaf-transport-delivers-after-stop-action")
+			break
+		}
+	}
 	if !sc.Plain {
 		switch {
 		case st.reconnects >= 2:
@@ -527,6 +593,8 @@ func (w *world) labels(st *stats) {
 			st.label("connect-error")
 		case a.Conn == "park":
 			st.label("connect-parks")
+		case a.Conn == "deaf":
+			st.label("deaf-transport")
 		}
 		if !as.connected {
 			continue
